@@ -219,7 +219,9 @@ pub fn run_c09(ctx: &Ctx) -> i32 {
     RICH_AMOUNT.store(0, std::sync::atomic::Ordering::Relaxed);
     // (EntryPresence: the only contract calls of this alphabet are calls with attached funds; whether
     // the callee runs is decided by whether the transfer of those funds is accepted)
-    let homes = |k: Kind| matches!(k, Kind::Outcome | Kind::State | Kind::StateOnErr | Kind::StateMissing | Kind::EntryPresence | Kind::Panic);
+    // EntryQuery / EntryBalance: what the bank tells a contract (balances of all principals, total
+    // supply of every denomination) in the middle of a transaction that has already moved coins
+    let homes = |k: Kind| matches!(k, Kind::Outcome | Kind::State | Kind::StateOnErr | Kind::StateMissing | Kind::EntryPresence | Kind::EntryQuery | Kind::EntryBalance | Kind::Panic);
     let mut st = TreeStats::default();
     let (start, ad, third) = with_world(false, |world| {
         let ad = Addrs::of(world);
@@ -306,7 +308,7 @@ pub fn run_c09(ctx: &Ctx) -> i32 {
         }
     });
     let enabled_ref: &(dyn Fn(&StartState, usize) -> bool + Sync) = &*enabled;
-    let ex = Explorer { ctx, name: "bank-ledger".into(), alphabet: alphabet.clone(), homes: &homes, max_depth: usize::MAX, max_states: 2_000_000, ext: false, invariant: Some(&c09_invariant), keep_states: false, enabled: Some(enabled_ref) };
+    let ex = Explorer { ctx, name: "bank-ledger".into(), alphabet: alphabet.clone(), homes: &homes, max_depth: usize::MAX, max_states: 2_000_000, ext: true, invariant: Some(&c09_invariant), keep_states: false, enabled: Some(enabled_ref) };
     let out = ex.run(&start);
     // init_balance at genesis: the admin setter normalises like everything else
     let mut extra = json!({});
